@@ -1,5 +1,7 @@
 import NTV.Proofs.Lemmas.EcmProofs
 import NTV.Proofs.Lemmas.TrialProofs
+import NTV.Proofs.Lemmas.EcmDriverUnique
+import NTV.Proofs.Lemmas.EcmDriverWrap
 /-! # C01 — integer factorisation: what is proved about the model
 (`NTV.Ecm` = ecm.rs + ecm_parallel.rs, `NTV.Trial` = factorize.rs; tied to the code by the
 correspondence check, which replays the captured random history of every run into the model).
@@ -73,5 +75,199 @@ example : simplify ⟨1, 1, 3⟩ 15 = .error 3 := by
   have h : (Int.gcd 3 15 : Int) = 3 := by decide
   simp [(NTV.inv_spec 3 15 (by decide)).2 (by decide), h]
 example : stage2Inits .dev 4 = .ok (1, 5) := by decide
+
+/-! ## The work-stack drivers: product (both profiles), sortedness, provenance of the entries, uniqueness
+
+`factorizeSeq` = `ecm::factorize_verbose`, `factorizePar` = `ecm_parallel::factorize_verbose` (what
+`rfactor` calls). All statements are about runs that return (`.ok result count rest`): termination of
+the curve loop is probabilistic and is not a theorem.
+
+Why the earlier product theorems say `.dev`: multiplicities are `u64`. With overflow checks a wrapped
+`multiplicity * k` or `+= multiplicity` panics; in release it wraps silently, and then the product is
+wrong. A multiplicity e always satisfies `2^e ≤ p^e ≤ x`, so wrapping needs `x ≥ 2^(2^64)`
+(an input of more than 2 EiB): the release theorems carry the hypothesis `x < 2 ^ two64`
+(`two64 = 2^64`), and `release_wrap_witness` shows that at `x = 2^(2^64)` the release drivers return a wrong answer. -/
+
+/-- `FacRes.ok` projected on its result (for the closed examples; `FacRes` has no decidable equality) -/
+def okResult : FacRes → Option (List (Int × Nat))
+  | .ok r _ _ => some r
+  | _ => none
+
+theorem okResult_some (r : FacRes) (l : List (Int × Nat)) (h : okResult r = some l) :
+    ∃ count rest, r = .ok l count rest := by
+  cases r with
+  | ok r c s => simp only [okResult, Option.some.injEq] at h; subst h; exact ⟨c, s, rfl⟩
+  | panic k => simp [okResult] at h
+  | inconclusive w => simp [okResult] at h
+
+/-- the all-zero 4-byte chunk: every draw decodes to the lower bound of its range -/
+def zchunk : List Nat := [0, 0, 0, 0]
+
+/-- Sequential driver, **release** profile, exactness: the product of the returned `p^e` is x, for
+every `x < 2^(2^64)`, every B1, every stream of draws. -/
+theorem driver_seq_product_release (x : Int) (hx : x < 2 ^ two64) (b : Nat) (stream : NTV.Draw.Stream)
+    (fuel : Nat) (result : List (Int × Nat)) (count : Nat) (rest : NTV.Draw.Stream)
+    (h : factorizeSeq x b stream fuel .release = .ok result count rest) : prodPairs result = x :=
+  (factorizeWith_arith _ (seq_hE .release) x b stream fuel .release (Or.inr hx) result count rest h).1
+
+/-- Batched driver, **release** profile, exactness (same hypothesis). -/
+theorem driver_par_product_release (x : Int) (hx : x < 2 ^ two64) (b : Nat) (stream : NTV.Draw.Stream)
+    (fuel : Nat) (result : List (Int × Nat)) (count : Nat) (rest : NTV.Draw.Stream)
+    (h : factorizePar x b stream fuel .release = .ok result count rest) : prodPairs result = x :=
+  (factorizeWith_arith _ (par_hE .release) x b stream fuel .release (Or.inr hx) result count rest h).1
+
+/-- The hypothesis `x < 2^(2^64)` of the release theorems is needed, and the property "the product is
+x" is **false in release at x = 2^(2^64)**: for every B1, every stream and every fuel ≥ 2 both drivers
+find the perfect power `2^(2^64)`, compute the multiplicity `1 * 2^64 mod 2^64 = 0` and return
+`[(2, 0)]`, whose product is 1. (In dev the same run panics with "overflow".) -/
+theorem release_wrap_witness (b : Nat) (stream : NTV.Draw.Stream) (fuel : Nat) :
+    factorizeSeq (((2 ^ two64 : Nat)) : Int) b stream (fuel + 2) .release = .ok [(2, 0)] 0 stream ∧
+    factorizePar (((2 ^ two64 : Nat)) : Int) b stream (fuel + 2) .release = .ok [(2, 0)] 0 stream ∧
+    prodPairs [(2, 0)] ≠ (((2 ^ two64 : Nat)) : Int) :=
+  ⟨factorizeWith_release_wrap _ b stream fuel, factorizeWith_release_wrap _ b stream fuel, wrap_product_ne⟩
+
+/-- **Shape of every returned result** (either driver, either profile): x ≥ 1, the list is strictly
+increasing in the first component; and when no multiplicity can wrap (dev, or x < 2^(2^64)) every
+entry is ≥ 2 with exponent ≥ 1. -/
+theorem driver_sorted (x : Int) (b : Nat) (stream : NTV.Draw.Stream) (fuel : Nat) (prof : Profile)
+    (result : List (Int × Nat)) (count : Nat) (rest : NTV.Draw.Stream)
+    (h : factorizeSeq x b stream fuel prof = .ok result count rest ∨
+         factorizePar x b stream fuel prof = .ok result count rest) :
+    1 ≤ x ∧ result.Pairwise (fun p q => p.1 < q.1) ∧
+      (prof = .dev ∨ x < 2 ^ two64 → ∀ pe ∈ result, 2 ≤ pe.1 ∧ 1 ≤ pe.2) := by
+  rcases h with h | h
+  · obtain ⟨h1, h2, _, _⟩ := factorizeWith_structure _ (seq_hS prof) x b stream fuel prof result count rest h
+    exact ⟨h1, h2, fun hnw => (factorizeWith_arith _ (seq_hE prof) x b stream fuel prof hnw result count rest h).2⟩
+  · obtain ⟨h1, h2, _, _⟩ := factorizeWith_structure _ (par_hS prof) x b stream fuel prof result count rest h
+    exact ⟨h1, h2, fun hnw => (factorizeWith_arith _ (par_hE prof) x b stream fuel prof hnw result count rest h).2⟩
+
+/-- x = 1: both drivers return the empty list after one iteration, without drawing anything
+(this one *is* a termination statement: any fuel ≥ 1 suffices). -/
+theorem driver_one (b : Nat) (stream : NTV.Draw.Stream) (fuel : Nat) (prof : Profile) :
+    factorizeSeq 1 b stream (fuel + 1) prof = .ok [] 0 stream ∧
+    factorizePar 1 b stream (fuel + 1) prof = .ok [] 0 stream :=
+  ⟨factorizeWith_one _ b stream fuel prof, factorizeWith_one _ b stream fuel prof⟩
+
+/-- x ≤ 0: both drivers take the documented `panic!("x <= 0")`, in both profiles. -/
+theorem driver_nonpos (x : Int) (hx : x ≤ 0) (b : Nat) (stream : NTV.Draw.Stream) (fuel : Nat) (prof : Profile) :
+    factorizeSeq x b stream fuel prof = .panic "other" ∧ factorizePar x b stream fuel prof = .panic "other" :=
+  ⟨factorizeWith_nonpos _ x hx b stream fuel prof, factorizeWith_nonpos _ x hx b stream fuel prof⟩
+
+/-- **Provenance of the entries** (either driver, either profile): every returned p was accepted by
+the primality test reading a segment `s₁ … s₂` of the draw stream of the run (s₁ a suffix of the
+input stream, s₂ what the test left); the unconsumed stream `rest` is a suffix of the input. -/
+theorem driver_entries_accepted (x : Int) (b : Nat) (stream : NTV.Draw.Stream) (fuel : Nat) (prof : Profile)
+    (result : List (Int × Nat)) (count : Nat) (rest : NTV.Draw.Stream)
+    (h : factorizeSeq x b stream fuel prof = .ok result count rest ∨
+         factorizePar x b stream fuel prof = .ok result count rest) :
+    rest <:+ stream ∧
+    ∀ pe ∈ result, ∃ s₁ s₂ : NTV.Draw.Stream, s₁ <:+ stream ∧ s₂ <:+ s₁ ∧
+      NTV.Prime.isPrimeS pe.1 s₁ = some (true, s₂) := by
+  rcases h with h | h
+  · obtain ⟨_, _, h3, h4⟩ := factorizeWith_structure _ (seq_hS prof) x b stream fuel prof result count rest h
+    exact ⟨h3, h4⟩
+  · obtain ⟨_, _, h3, h4⟩ := factorizeWith_structure _ (par_hS prof) x b stream fuel prof result count rest h
+    exact ⟨h3, h4⟩
+
+/-- **Uniqueness, given prime entries** (either driver; dev, or release with x < 2^(2^64)): if the
+returned first components are prime, the result is THE prime factorisation of x — read over ℕ it is
+the list computed by trial division (`trial_division_entries`: exactly the `(p, v_p(x))`). -/
+theorem driver_unique_of_prime_entries (x : Int) (b : Nat) (stream : NTV.Draw.Stream) (fuel : Nat)
+    (prof : Profile) (hnw : prof = .dev ∨ x < 2 ^ two64)
+    (result : List (Int × Nat)) (count : Nat) (rest : NTV.Draw.Stream)
+    (h : factorizeSeq x b stream fuel prof = .ok result count rest ∨
+         factorizePar x b stream fuel prof = .ok result count rest)
+    (hprime : ∀ pe ∈ result, Nat.Prime pe.1.toNat) :
+    result.map (fun pe => (pe.1.toNat, pe.2)) = NTV.Trial.factorize x.toNat := by
+  obtain ⟨hx, hsorted, hge⟩ := driver_sorted x b stream fuel prof result count rest h
+  have hprod : prodPairs result = x := by
+    rcases h with h | h
+    · exact (factorizeWith_arith _ (seq_hE prof) x b stream fuel prof hnw result count rest h).1
+    · exact (factorizeWith_arith _ (par_hE prof) x b stream fuel prof hnw result count rest h).1
+  exact result_eq_factorize x hx result hprod hsorted (hge hnw) hprime
+
+/-- **Uniqueness, given sound tests**: the only way a returned run can differ from the prime
+factorisation is a wrong `true` of Miller–Rabin on one of the returned entries. If every acceptance
+of a returned entry on a segment of the run's stream was correct, the result is the prime
+factorisation of x. (That Miller–Rabin can accept a composite on an adversarial stream is a recorded
+finding: on the all-zero stream every base is 1 and every odd n < 2^32 passes.) -/
+theorem driver_unique_of_sound_tests (x : Int) (b : Nat) (stream : NTV.Draw.Stream) (fuel : Nat)
+    (prof : Profile) (hnw : prof = .dev ∨ x < 2 ^ two64)
+    (result : List (Int × Nat)) (count : Nat) (rest : NTV.Draw.Stream)
+    (h : factorizeSeq x b stream fuel prof = .ok result count rest ∨
+         factorizePar x b stream fuel prof = .ok result count rest)
+    (hsound : ∀ pe ∈ result, ∀ s₁ s₂ : NTV.Draw.Stream, s₁ <:+ stream →
+      NTV.Prime.isPrimeS pe.1 s₁ = some (true, s₂) → Nat.Prime pe.1.toNat) :
+    result.map (fun pe => (pe.1.toNat, pe.2)) = NTV.Trial.factorize x.toNat := by
+  refine driver_unique_of_prime_entries x b stream fuel prof hnw result count rest h ?_
+  intro pe hpe
+  obtain ⟨s₁, s₂, h1, _, h3⟩ := (driver_entries_accepted x b stream fuel prof result count rest h).2 pe hpe
+  exact hsound pe hpe s₁ s₂ h1 h3
+
+/-- **Trial division is the unique answer**: any strictly increasing list of (prime, positive
+exponent) with product n ≥ 1 equals the list returned by the model of `factorize::factorize`. -/
+theorem trial_division_unique (n : Nat) (hn : 1 ≤ n) (l : List (Nat × Nat))
+    (hprimes : ∀ qe ∈ l, qe.1.Prime ∧ 0 < qe.2) (hsorted : l.Pairwise (fun a b => a.1 < b.1))
+    (hprod : NTV.Trial.prodOf l = n) : l = NTV.Trial.factorize n :=
+  NTV.Trial.eq_factorize n hn l ⟨hprimes, hsorted⟩ hprod
+
+/-- …and its entries are exactly the pairs (p, v_p(n)) for the prime divisors p of n
+(`Nat.factorization` is Mathlib's multiplicity function). -/
+theorem trial_division_entries (n : Nat) (hn : 1 ≤ n) (p e : Nat) :
+    (p, e) ∈ NTV.Trial.factorize n ↔ p.Prime ∧ p ∣ n ∧ e = n.factorization p :=
+  NTV.Trial.mem_factorize_iff n hn p e
+
+/-! ### non-vacuity: x = 12 on the all-zero stream (curve a = x = y = 1 gives the factor 4; the 20
+Miller–Rabin rounds for 3 each draw the base 1), all four driver/profile combinations return
+`[(2, 2), (3, 1)]`, and the theorems apply to these runs. -/
+
+theorem run12_seq_dev : okResult (factorizeSeq 12 4 (List.replicate 23 zchunk) 10 .dev) = some [(2, 2), (3, 1)] := by
+  decide +kernel
+theorem run12_seq_release :
+    okResult (factorizeSeq 12 4 (List.replicate 23 zchunk) 10 .release) = some [(2, 2), (3, 1)] := by
+  decide +kernel
+theorem run12_par_dev : okResult (factorizePar 12 4 (List.replicate 26 zchunk) 10 .dev) = some [(2, 2), (3, 1)] := by
+  decide +kernel
+theorem run12_par_release :
+    okResult (factorizePar 12 4 (List.replicate 26 zchunk) 10 .release) = some [(2, 2), (3, 1)] := by
+  decide +kernel
+
+/-- 12 < 2^(2^64) without evaluating the power -/
+theorem twelve_lt : (12 : Int) < 2 ^ two64 :=
+  calc (12 : Int) < 2 ^ 4 := by norm_num
+    _ ≤ 2 ^ two64 := pow_le_pow_right₀ (by norm_num) (by unfold two64; norm_num)
+
+example : prodPairs [(2, 2), (3, 1)] = 12 := by
+  obtain ⟨c, r, h⟩ := okResult_some _ _ run12_seq_release
+  exact driver_seq_product_release 12 twelve_lt 4 _ 10 _ c r h
+example : prodPairs [(2, 2), (3, 1)] = 12 := by
+  obtain ⟨c, r, h⟩ := okResult_some _ _ run12_par_release
+  exact driver_par_product_release 12 twelve_lt 4 _ 10 _ c r h
+example : ([(2, 2), (3, 1)] : List (Int × Nat)).Pairwise (fun p q => p.1 < q.1) := by
+  obtain ⟨c, r, h⟩ := okResult_some _ _ run12_par_dev
+  exact (driver_sorted 12 4 _ 10 .dev _ c r (Or.inr h)).2.1
+example : ∃ s₁ s₂ : NTV.Draw.Stream, s₁ <:+ List.replicate 23 zchunk ∧ s₂ <:+ s₁ ∧
+    NTV.Prime.isPrimeS 3 s₁ = some (true, s₂) := by
+  obtain ⟨c, r, h⟩ := okResult_some _ _ run12_seq_dev
+  exact (driver_entries_accepted 12 4 _ 10 .dev _ c r (Or.inl h)).2 (3, 1) (by simp)
+example : ([(2, 2), (3, 1)] : List (Int × Nat)).map (fun pe => (pe.1.toNat, pe.2)) = NTV.Trial.factorize 12 := by
+  obtain ⟨c, r, h⟩ := okResult_some _ _ run12_seq_release
+  refine driver_unique_of_sound_tests 12 4 _ 10 .release (Or.inr twelve_lt) _ c r (Or.inl h) ?_
+  intro pe hpe _ _ _ _
+  simp only [List.mem_cons, List.not_mem_nil, or_false] at hpe
+  rcases hpe with rfl | rfl
+  · show Nat.Prime 2; norm_num
+  · show Nat.Prime 3; norm_num
+example : NTV.Trial.factorize 12 = [(2, 2), (3, 1)] :=
+  (trial_division_unique 12 (by norm_num) [(2, 2), (3, 1)]
+    (by intro qe h; simp only [List.mem_cons, List.not_mem_nil, or_false] at h; rcases h with rfl | rfl <;> norm_num)
+    (by simp) (by simp [NTV.Trial.prodOf])).symm
+example : (3, 1) ∈ NTV.Trial.factorize 12 :=
+  (trial_division_entries 12 (by norm_num) 3 1).mpr
+    ⟨by norm_num, by norm_num, by
+      have : (12 : ℕ) = 3 ^ 1 * 4 := by norm_num
+      rw [this, Nat.factorization_mul (by norm_num) (by norm_num), Nat.Prime.factorization_pow (by norm_num)]
+      have h4 : (4 : ℕ).factorization 3 = 0 := Nat.factorization_eq_zero_of_not_dvd (by norm_num)
+      simp [h4]⟩
 
 end NTV.C01
